@@ -140,6 +140,35 @@ def relEval (prop : String) (params : List String) (src : Str) (outs : List Stri
     | .ok _, .error _ => if isTree o2 then ["relayout-ill-typed"] else ["relayout-fails"]
     | .error e, _ => ["ill-typed:" ++ e]
   | "C11", [], [o] => errOK src o
+  | "C07", [openAt, bodyAt], [alone, embedded] =>
+    -- the substitution opened at `openAt` holds `parse A` shifted to `bodyAt`
+    if !alone.startsWith "OK [{" then [] else
+    match outcomeNodes alone, outcomeNodes embedded with
+    | .ok pa, .ok pe =>
+      let subs := (pe.map Node.preorder).flatten.filter fun m =>
+        (match m with | .commandsubstitution .. | .processsubstitution .. => true | _ => false) &&
+        m.pos.1 == openAt.toNat!
+      (match subs.head? with
+       | none => ["substitution-node-missing"]
+       | some (.commandsubstitution _ c) | some (.processsubstitution _ c) =>
+         let want := pa.map (Node.shift bodyAt.toNat!)
+         (if pa.length > 1 then ["commands-after-the-first-missing"] else []) ++
+         (match want.head? with
+          | some w => if showNode none w == showNode none c then [] else ["command-differs"]
+          | none => [])
+       | _ => [])
+    | .ok _, .error _ => if isTree embedded then ["embedded-ill-typed"] else ["enclosed-command-rejected"]
+    | .error e, _ => ["ill-typed:" ++ e]
+  | "C07prot", [], [o] =>
+    -- protected text yields no substitution / parameter / tilde node
+    match outcomeNodes o with
+    | .ok ps =>
+      dedup (((ps.map Node.preorder).flatten.filterMap fun m =>
+        match m with
+        | .commandsubstitution .. | .processsubstitution .. | .parameter .. | .tilde .. =>
+          some ("protected-text-expanded:" ++ m.kind)
+        | _ => none))
+    | .error _ => []
   | "C06split", [], [o] =>
     -- `split` versus POSIX shlex on the plain / blank / quote / backslash alphabet
     let feats := (splitFeatures src).tags ++ (if src.getLast? == some '\\' then "+trailing-backslash" else "")
